@@ -289,6 +289,88 @@ def _multi14_block(params, lo, hi):
     return _multi14_chunk(None, params + lo, params + hi)
 
 
+def large_graphs():
+    """larger structured graphs (name, n, edges): path, cycle, grid and complete graphs with modular weights"""
+    out = []
+    n = 70
+    out.append(("path70", n, [(i, i + 1, i % 5 + 1) for i in range(n - 1)]))
+    out.append(("cycle70", n, [(i, (i + 1) % n, (i * 3) % 7 + 1) for i in range(n)]))
+    g = 8
+    ge = []
+    for i in range(g):
+        for j in range(g):
+            if j + 1 < g:
+                ge.append((i * g + j, i * g + j + 1, (i * 3 + j * 5) % 7 + 1))
+            if i + 1 < g:
+                ge.append((i * g + j, (i + 1) * g + j, (i * 5 + j * 3) % 7 + 1))
+    out.append(("grid8x8", g * g, ge))
+    for k, (a, b, m) in ((11, (1, 3, 17)), (12, (3, 1, 19)), (13, (2, 2, 17))):
+        out.append((f"K{k}", k, [(i, j, (a * i * j + b * (i + j)) % m + 1) for i in range(k) for j in range(i + 1, k)]))
+    out.append(("two_K6_and_isolated", 13, [(i, j, (i + j) % 4 + 1) for i in range(6) for j in range(i + 1, 6)] + [(6 + i, 6 + j, (i * j) % 4 + 1) for i in range(6) for j in range(i + 1, 6)]))
+    return out
+
+
+def naive_msf(n, edges):
+    """(components, minimum spanning forest weight) by Kruskal with a plain label array (reference model)"""
+    label = list(range(n))
+    tot = 0
+    for u, v, w in sorted(edges, key=lambda e: e[2]):
+        if label[u] != label[v]:
+            old, new_ = label[v], label[u]
+            label = [new_ if x == old else x for x in label]
+            tot += w
+    return len(set(label)), tot
+
+
+def _large_chunk(params, lo, hi):
+    from solvor.mst import kruskal, prim
+    from solvor.types import Status
+
+    gs = large_graphs()
+    r = new_result()
+    for idx in range(lo, hi):
+        name, n, edges0 = gs[idx // 3]
+        variant = idx % 3
+        edges = list(edges0) if variant == 0 else (list(reversed(edges0)) if variant == 1 else [(v, u, w) for u, v, w in edges0])
+        nc, opt = naive_msf(n, edges)
+        wit = {"function": "large", "graph": name, "variant": variant}
+        runs = [("kruskal", lambda: kruskal(n, [tuple(e) for e in edges], allow_forest=True, backend="python"))]
+        adj = {x: [] for x in range(n)}
+        for u, v, w in edges:
+            adj[u].append((v, w))
+            adj[v].append((u, w))
+        runs.append(("prim", lambda: prim(adj)))
+        runs.append(("prim_from_last", lambda: prim(adj, start=n - 1)))
+        for fname, fn in runs:
+            r["n"] += 1
+            r["nontrivial"] += 1
+            try:
+                res = gcall(fn, 10.0, 100_000_000)
+            except Exception as ex:  # noqa: BLE001
+                r["violations"].append(viol(fname.split("_")[0], "raised", dict(wit, run=fname), f"{fname} on {name} (variant {variant}): {type(ex).__name__}: {ex}"))
+                continue
+            r["outcomes"][f"large:{fname}:{res.status.name}"] += 1
+            errs = []
+            if fname == "kruskal":
+                want_status = Status.OPTIMAL if nc == 1 else Status.FEASIBLE
+            else:
+                want_status = Status.OPTIMAL if nc == 1 else Status.INFEASIBLE
+            if res.status != want_status:
+                errs.append(("status", f"status {res.status.name}, expected {want_status.name} ({nc} components)"))
+            elif res.solution is not None:
+                pool = list(edges)
+
+                def is_in(e, pool):
+                    return _take(e, pool) or _take((e[1], e[0], e[2]), pool)
+
+                errs += check_tree(n, edges, [tuple(e) for e in res.solution], res.objective, nc, opt, fname, is_in)
+            for kind, detail in errs[:2]:
+                r["violations"].append(viol(fname.split("_")[0], kind, dict(wit, run=fname), f"{fname} on {name} (variant {variant}): {detail}"))
+        if not r["samples"]:
+            r["samples"].append(wit)
+    return r
+
+
 K8_PAIRS = [(0, 1), (2, 3), (4, 5), (6, 7), (1, 3), (5, 7), (3, 7), (0, 6), (2, 5), (6, 1)]
 
 
@@ -329,6 +411,7 @@ def jobs(tier, seed):
     js.append(Job(f"n8_ordered_lists_of_{k8}_of_10_pairs", math.perm(len(K8_PAIRS), k8), _k8_chunk, k8, describe=f"kruskal(8, ...) on every ordered list of {k8} distinct pairs out of {K8_PAIRS}, weight = list position"))
     for n in (1, 2, 3, 4):
         js.append(Job(f"n{n}_over_absent-1012", 5 ** len(_pairs(n)), _simple_chunk, (n, A5, STR), describe="all graphs, per-pair weight in {absent,-1,0,1,2}; odd indices use string labels (every 4th: None/falsy/tuple/float labels) for prim"))
+    js.append(Job("large_structured", len(large_graphs()) * 3, _large_chunk, None, chunk=1, describe="path and cycle on 70 nodes, 8x8 grid, K11..K13 with modular weights, two K6 plus an isolated node; three edge-list variants; kruskal, prim from the default and from the last node; reference: Kruskal over a label array"))
     js.append(Job("n3_multigraph_many_parallel", 9 * 3 * 512, _multi3_chunk, None, describe="3 nodes, up to 8+2 self loops and up to 3 parallel edges per pair with weights {1,2,3}"))
     js.append(Job("n3_selfloops", 125 * 27, _loops_chunk, None, describe="3 nodes with optional self loops of weight -1/1"))
     for L in (1, 2, 3, 4):
@@ -348,6 +431,14 @@ def jobs(tier, seed):
 
 def replay(v):
     w = v["witness"]
+    if w.get("function") == "large":
+        names = [g[0] for g in large_graphs()]
+        i = names.index(w["graph"]) * 3 + w["variant"]
+        rr = _large_chunk(None, i, i + 1)
+        for x in rr["violations"]:
+            if x["witness"].get("run") == w.get("run"):
+                return x
+        return None
     edges = [tuple(e) for e in w["edges"]]
     if w["function"] == "kruskal":
         errs, _, _ = judge_kruskal(w["n"], edges, w["allow_forest"])
